@@ -224,4 +224,134 @@ theorem h8_logonFixMsgIn (g0 : G8) (s : Sess) (m : InMsg) (hl : s.st.isLogon = t
         refine logon_done g0 s x _ _ hl hx hready rfl (hy.trans f1) (by rw [f2, hgy]) ?_
         rw [← hyq]; exact f3
 
+/-! ## 9. what `setState` is handed: handler outcomes with the real next state -/
+
+/-- outcome of the state's message / timeout / stop handler: connected next state ⇒ both invariants with it in place;
+    otherwise the weak invariant with the old state in place -/
+structure T8 (g0 : G8) (s : Sess) (r : Sess × SState) : Prop where
+  fr : Fr s r.1
+  w : WK g0 s → if r.2.connected then WK g0 (r.1.setSt r.2) else WK g0 r.1
+  st : SK g0 s → if r.2.connected then SK g0 (r.1.setSt r.2) else WK g0 r.1
+
+theorem T8.same {g0 : G8} {s x : Sess} {nx : SState} (h : P true g0 s x) (hc : SameCls nx s.st) : T8 g0 s (x, nx) := by
+  have hc' : SameCls nx x.st := by rw [h.fr.st]; exact hc
+  refine ⟨h.fr, fun hW => ?_, fun hS => ?_⟩
+  · split
+    · exact W.setSt (h.w hW) hc'
+    · exact h.w hW
+  · split
+    · exact S.setSt (h.st rfl hS) hc'
+    · exact (h.st rfl hS).1
+
+theorem T8.down {b : Bool} {g0 : G8} {s x : Sess} {nx : SState} (h : P b g0 s x) (hc : nx.connected = false) : T8 g0 s (x, nx) :=
+  ⟨h.fr, fun hW => by simp only [hc, Bool.false_eq_true, if_false]; exact h.w hW,
+   fun hS => by simp only [hc, Bool.false_eq_true, if_false]; exact h.w hS.1⟩
+
+theorem T8.ofH8 {g0 : G8} {s : Sess} {r : Sess × SState} (h : H8 g0 s r) (hlo : s.st.isLogout = false) : T8 g0 s r := by
+  have he : eff s.st r.2 = r.2 := by unfold eff; rw [hlo]; rfl
+  refine ⟨h.fr, fun hW => ?_, fun hS => ?_⟩
+  · have := h.w hW; rw [he] at this; exact this
+  · have := h.st hS; rw [he] at this; exact this
+
+theorem t8_fixMsgInCore (g0 : G8) (s : Sess) (m : InMsg) : T8 g0 s (fixMsgInCore s m) := by
+  unfold fixMsgInCore
+  split
+  · exact T8.down (P.refl false g0 s) rfl
+  · exact T8.down (P.refl false g0 s) rfl
+  · rename_i hst
+    exact T8.ofH8 (h8_logonFixMsgIn g0 s m (by rw [hst]; rfl)) (by rw [hst]; rfl)
+  · rename_i hst
+    have hn : (s.st.loggedOn || s.st.isLogout) = true := by rw [hst]; rfl
+    have h1 := h8_inSessionFixMsgIn g0 s m hn
+    generalize inSessionFixMsgIn s m = r at h1
+    obtain ⟨s', nx⟩ := r
+    dsimp only
+    have heff : ∀ nx, eff s.st nx = .logout := by intro nx; unfold eff; rw [hst]; rfl
+    have hcon : nx.connected = true → T8 g0 s (s', .logout) := by
+      intro hc
+      refine ⟨h1.fr, fun hW => ?_, fun hS => ?_⟩
+      · have := h1.w hW; simp only [hc, if_true, heff] at this; exact this
+      · have := h1.st hS; simp only [hc, if_true, heff] at this; exact this
+    have hnst := h1.nst
+    cases nx with
+    | latent =>
+      refine ⟨h1.fr, fun hW => ?_, fun hS => ?_⟩
+      · exact h1.w hW
+      · exact h1.st hS
+    | notSessionTime => cases hnst
+    | _ => exact hcon rfl
+  · rename_i hst
+    exact T8.ofH8 (h8_inSessionFixMsgIn g0 s m (by rw [hst]; rfl)) (by rw [hst]; rfl)
+  · rename_i hst
+    exact T8.ofH8 (h8_inSessionFixMsgIn g0 s m (by rw [hst]; rfl)) (by rw [hst]; rfl)
+  · rename_i hst
+    exact T8.ofH8 (h8_resendFixMsgIn g0 s _ _ _ m (by rw [hst]; rfl)) (by rw [hst]; rfl)
+  · rename_i hst
+    exact T8.ofH8 (h8_resendFixMsgIn g0 s _ _ _ m (by rw [hst]; rfl)) (by rw [hst]; rfl)
+
+/-! ## 10. timeouts and stop -/
+
+theorem p_inSessionTimeout (g0 : G8) (s : Sess) (e : TimerEv) : P true g0 s (inSessionTimeout s e).1 := by
+  unfold inSessionTimeout
+  q_cases
+
+theorem p_ist_eq {g0 : G8} {s : Sess} {e : TimerEv} {r : Sess × Bool} (hr : inSessionTimeout s e = r) : P true g0 s r.1 := by
+  rw [← hr]; exact p_inSessionTimeout g0 s e
+
+theorem t8_timeoutCore (g0 : G8) (s : Sess) (e : TimerEv) : T8 g0 s (timeoutCore s e) := by
+  unfold timeoutCore
+  split
+  all_goals (try dsimp only)
+  · rename_i hst
+    exact T8.same (p_inSessionTimeout g0 s e) (by rw [hst]; split <;> exact ⟨rfl, rfl, rfl⟩)
+  · rename_i hst
+    exact T8.same (p_inSessionTimeout g0 s e) (by rw [hst]; split <;> exact ⟨rfl, rfl, rfl⟩)
+  · rename_i hst
+    split
+    · exact T8.down (P.refl false g0 s) rfl
+    · exact T8.same (P.refl true g0 s) (by rw [hst]; exact ⟨rfl, rfl, rfl⟩)
+  · rename_i hst
+    split
+    · exact T8.down (P.refl false g0 s) rfl
+    · exact T8.same (P.refl true g0 s) (by rw [hst]; exact ⟨rfl, rfl, rfl⟩)
+  · rename_i hst
+    split
+    · exact T8.down (P.refl false g0 s) rfl
+    · exact T8.same (P.refl true g0 s) (by rw [hst]; exact ⟨rfl, rfl, rfl⟩)
+  · rename_i hst
+    split
+    · exact T8.down (P.refl false g0 s) rfl
+    · exact T8.same (P.refl true g0 s) (by rw [hst]; exact ⟨rfl, rfl, rfl⟩)
+  · exact T8.same (P.refl true g0 s) (SameCls.refl _)
+
+theorem T8.logout {b : Bool} {g0 : G8} {s x : Sess} (hn : (s.st.loggedOn || s.st.isLogout) = true) (h : P b g0 s x) :
+    T8 g0 s (x, .logout) := by
+  have h8 := H8.logout hn h
+  have he : eff s.st .logout = .logout := by unfold eff; split <;> rfl
+  refine ⟨h.fr, fun hW => ?_, fun hS => ?_⟩
+  · have := h8.w hW; rw [he] at this; exact this
+  · have := h8.st hS; rw [he] at this; exact this
+
+theorem t8_stopNext (g0 : G8) (s : Sess) : T8 g0 s (stopNext s) := by
+  unfold stopNext
+  split
+  · rename_i hst
+    have hn : (s.st.loggedOn || s.st.isLogout) = true := by rw [hst]; rfl
+    have hnl := notif_not_logon hn
+    exact T8.logout hn (by q_peel : P false g0 s (initiateLogout s))
+  · rename_i hst
+    have hn : (s.st.loggedOn || s.st.isLogout) = true := by rw [hst]; rfl
+    have hnl := notif_not_logon hn
+    exact T8.logout hn (by q_peel : P false g0 s (initiateLogout s))
+  · rename_i hst
+    have hn : (s.st.loggedOn || s.st.isLogout) = true := by rw [hst]; rfl
+    have hnl := notif_not_logon hn
+    exact T8.logout hn (by q_peel : P false g0 s (initiateLogout s))
+  · rename_i hst
+    have hn : (s.st.loggedOn || s.st.isLogout) = true := by rw [hst]; rfl
+    have hnl := notif_not_logon hn
+    exact T8.logout hn (by q_peel : P false g0 s (initiateLogout s))
+  · exact T8.down (P.refl false g0 s) rfl
+  · exact T8.same (P.refl true g0 s) (SameCls.refl _)
+
 end Qfx.Sess
